@@ -128,13 +128,18 @@ fn cargo_build(name: &str) -> (bool, BTreeMap<usize, String>, String) {
 /// Builds the crate `name` containing one module per given spec (key = spec index).
 /// Modules that fail to compile are reported and dropped; the rest is rebuilt.
 pub fn build(name: &str, specs: &BTreeMap<usize, &Spec>, n_bins: usize) -> GenBuild {
-    let t0 = std::time::Instant::now();
-    let mut modules: BTreeMap<usize, String> = specs
+    let modules: BTreeMap<usize, String> = specs
         .iter()
         .map(|(i, s)| (*i, s.print_module_body("Lexer")))
         .collect();
+    build_modules(name, modules, n_bins)
+}
+
+/// Same, for ready-made module bodies (each must define `pub fn run(&rt::Case) -> rt::Trace`).
+pub fn build_modules(name: &str, mut modules: BTreeMap<usize, String>, n_bins: usize) -> GenBuild {
+    let t0 = std::time::Instant::now();
     let mut failed: BTreeMap<usize, String> = BTreeMap::new();
-    for round in 0..4 {
+    for round in 0..6 {
         let groups = write_crate(name, &modules, n_bins);
         let (ok, per_mod, other) = cargo_build(name);
         if ok {
